@@ -9,7 +9,7 @@ Oracle : partition by linear scan with == (no dict, independent of hashing): eve
          to_list the output is the groups in that order; with a per-item pipeline the output is in
          source order.
 """
-from ..common import Check, Outcome, bootstrap, norm, with_prelude, prelude_tags, shrink_prelude, PRELUDE_TAGS
+from ..common import Check, Outcome, bootstrap, norm, with_prelude, prelude_tags, shrink_prelude, PRELUDE_TAGS, PRELUDE_RULE
 from .. import windows, model, progs
 
 rs = bootstrap()
@@ -30,6 +30,7 @@ class C04(Check):
             '0..400 items; group_by at top level, nested in group_by, in roll (key slots reused by successive windows: w != s and w == s), in split, group_by>roll; inner pipeline '
             'to_list (groups flushed at completion) or a per-item map (output in source order). non-trivial = some key lifetime has >= 2 groups each with >= 2 items; '
             'distinct = hash of the case')
+    RULE += PRELUDE_RULE
     ASSUMPTIONS = ['keys are hashable and == is an equivalence on them (NaN / unhashable keys are outside the statement)']
     ANCHORS = ['rxsci/operators/group_by.py', 'rxsci/operators/multiplex.py', 'rxsci/state/memory_store.py']
     REQUIRED_TAGS = ['top', 'group', 'roll', 'roll_eq', 'split', 'key=kt', 'key=ks', 'key=kbig', 'key=kf', 'key=kmix', 'key=kneg', 'key=kmers', 'key=ktneg', 'key=knp', 'key=kcent', 'per-item', 'to_list',
